@@ -6,6 +6,7 @@
 //     answer: <id> set=<0|1> trace=<state after each op, ';'-separated>
 //     state = bytes,row,col,idx,lookahead,size,eof,ts.bytes,ts.row,ts.col,te.bytes,te.row,te.col,chunk_start,chunk_size,colvalid,colvalue[,lookahead_end after F]
 //   D <id> <hex>  → <id> dec=<code point>,<return value>   (ts_decode_utf8 on the bytes)
+//   E <id> le|be <hex> → <id> dec16=<code point>,<return value>   (ts_decode_utf16_le/_be on the bytes)
 // Other lines are ignored.
 #include TSV_REPO_LIB_C
 #include <stdio.h>
@@ -52,6 +53,14 @@ int main(int argc, char **argv) {
       uint32_t n; uint8_t *b = unhex(hx ? hx : "-", &n); int32_t cp = 0;
       uint32_t r = n ? ts_decode_utf8(b, n, &cp) : 0;
       printf("%s dec=%d,%u\n", id, n ? cp : -1, r); free(b); continue;
+    }
+    if (line[0] == 'E' && line[1] == ' ') {
+      // E <id> le|be <hex> : ts_decode_utf16_le / _be on the bytes
+      char *id = strtok(line + 2, " "); char *en = strtok(NULL, " "); char *hx = strtok(NULL, " ");
+      uint32_t n; uint8_t *b = unhex(hx ? hx : "-", &n); int32_t cp = 0;
+      uint16_t *al = malloc(n + 8); memcpy(al, b, n);   // the decoder reads uint16_t units
+      uint32_t r = (en && en[0] == 'b') ? ts_decode_utf16_be((const uint8_t *)al, n, &cp) : ts_decode_utf16_le((const uint8_t *)al, n, &cp);
+      printf("%s dec16=%d,%u\n", id, cp, r); free(b); free(al); continue;
     }
     if (line[0] != 'L' || line[1] != ' ') continue;
     char *bar = strchr(line, '|'); if (!bar) continue; *bar = 0; char *script = bar + 1;
